@@ -244,6 +244,12 @@ def parseCallItems (items : List String) : CallSpec :=
       | .ok h => { cs with params := cs.params ++ [(name.toList, h, parseValueU val)] }
       | .error e => { cs with err := cs.err <|> some e }
     | ["D", _, _] => cs
+    | ["VA", _, _] => cs
+    | ["VK", _, _] => cs
+    | ["PD", name, mode, specs, val] =>
+      match hintOf mode specs with
+      | .ok h => { cs with params := cs.params ++ [(name.toList, h, parseValueU val)] }
+      | .error e => { cs with err := cs.err <|> some e }
     | ["R", mode, specs, val] =>
       let body := if val == "!" then BodyResult.raises else .returns (parseValueU val)
       if mode == "-" then { cs with body := body } else
@@ -516,7 +522,7 @@ def parseHStep (hp : HParse) (st : String) : HParse :=
     | .good a => { hp with aliases := hp.aliases ++ [(alias, a)] }
     | .bad e => { hp with err := hp.err <|> some e }
     | .absent => { hp with err := hp.err <|> some "bad-op" }
-  | ["V", pid, kind, scope] => { hp with ops := hp.ops ++ [.setProvider pid (kind != "bad") (parseScope scope)] }
+  | ["V", pid, kind, scope] => { hp with ops := hp.ops ++ [.setProvider pid (kind != "bad" && kind != "badfalsy") (parseScope scope)] }
   | ["S", pid, scope] => { hp with ops := hp.ops ++ [.setScope pid (parseScope scope)] }
   | ["D", fid, pid, params, ret, nested] =>
     let ps := (splitSemi params).map fun p =>
